@@ -73,7 +73,7 @@ func (p *ProposerConfig) MarshalJSON() ([]byte, error) {
 	}
 	var minValue string
 	if p.MinValue != nil {
-		minValue = fmt.Sprintf("%v", p.MinValue.Div(weiPerETH))
+		minValue = fmt.Sprintf("%v", p.MinValue.Shift(-weiPerETHDecimals))
 	}
 
 	return json.Marshal(&proposerConfigJSON{
